@@ -26,6 +26,7 @@ var frameControls = []struct {
 	{"viahelper", []string{"argwrite"}},
 	{"sharedcopy", []string{"ptrresult"}},
 	{"globalhash", []string{"globalwrite"}},
+	{"retainkey", []string{"globalwrite", "retain"}},
 }
 
 // runFrameControls analyses the control packages under /verif/controls with
